@@ -5,6 +5,8 @@ import (
 	"go/ast"
 	"go/parser"
 	"regexp"
+	"sort"
+	"strconv"
 	"strings"
 
 	"gverif/internal/wiring"
@@ -233,6 +235,75 @@ func c19AliasScheme(e *Env, gm *wiring.GoModel) {
 	if n == 0 {
 		r.Undecide("R19.5", key, "the checked-in file has no aliased import")
 		return
+	}
+	// the numerals: the n aliases of the file carry exactly the first n numerals of today's numbering
+	base, upper := int64(0), false
+	allInstrs(fn, func(_ *ssa.Function, ins ssa.Instruction) {
+		c, ok := ins.(*ssa.Call)
+		if !ok {
+			return
+		}
+		switch callName(&c.Call) {
+		case "strconv.FormatInt", "strconv.FormatUint":
+			if b, ok := constInt(c.Call.Args[1]); ok {
+				base = b
+			}
+		case "strconv.Itoa":
+			base = 10
+		case "fmt.Sprintf":
+			if f, ok := constString(c.Call.Args[0]); ok {
+				vals := varargs(c.Call.Args[1])
+				ai := 0
+				for i := 0; i+1 < len(f); i++ {
+					if f[i] != '%' {
+						continue
+					}
+					i++
+					if f[i] == '%' {
+						continue
+					}
+					if ai < len(vals) && isIntegerValue(vals[ai]) {
+						switch f[i] {
+						case 'd', 'v':
+							base = 10
+						case 'x':
+							base = 16
+						case 'X':
+							base, upper = 16, true
+						case 'o':
+							base = 8
+						case 'b':
+							base = 2
+						}
+					}
+					ai++
+				}
+			}
+		}
+	})
+	if base >= 2 && base <= 36 {
+		var want, got []string
+		for k := 0; k < n; k++ {
+			w := strconv.FormatInt(int64(k), int(base))
+			if upper {
+				w = strings.ToUpper(w)
+			}
+			want = append(want, w)
+		}
+		num := regexp.MustCompile(`^i([0-9A-Za-z]+)_`)
+		for _, imp := range gm.File.Imports {
+			if imp.Name == nil {
+				continue
+			}
+			if m := num.FindStringSubmatch(imp.Name.Name); m != nil {
+				got = append(got, m[1])
+			}
+		}
+		sort.Strings(want)
+		sort.Strings(got)
+		r.Check(strings.Join(want, ",") == strings.Join(got, ","), "R19.5", key+"#numerals", fmt.Sprintf("the %d aliases of the checked-in file carry exactly the first %d numerals of today's numbering (base %d): file has [%s], the generator would number [%s]", n, n, base, strings.Join(got, " "), strings.Join(want, " ")), e.P.Pos(fn.Pos()))
+	} else {
+		r.Undecide("R19.5", key+"#numerals", "the numbering of the aliases (strconv.FormatInt / Itoa / an integer verb) was not found in imports.Alias")
 	}
 	r.Check(bad == "", "R19.5", key, fmt.Sprintf("all %d import aliases of the checked-in file belong to the language of names imports.Alias builds today (%s); first that does not: %q", n, pat, bad), e.P.Pos(fn.Pos()))
 }
